@@ -334,6 +334,49 @@ fn check_arbitrary(text: &str) -> Option<(String, String)> {
     }
 }
 
+/// Every run executes in a thread of its own, so that state the reader may keep per thread is in
+/// a known (fresh) condition at the start of the run and the run's own history - the earlier
+/// inputs of the same session - is the only thing that can influence it. A replay does the same.
+fn in_fresh_thread<T: Send, F: FnOnce() -> T + Send>(f: F) -> T {
+    std::thread::scope(|s| {
+        std::thread::Builder::new()
+            .stack_size(64 << 20)
+            .spawn_scoped(s, f)
+            .expect("spawn")
+            .join()
+            .unwrap_or_else(|_| panic!("run thread panicked"))
+    })
+}
+
+/// earlier inputs of the same terminal session: scanned, parsed and (if possible) evaluated;
+/// their own outcome is not judged here
+fn feed_history(history: &[String]) {
+    for h in history {
+        let _ = catch(|| {
+            let _ = lex::scan(h);
+        });
+        let _ = catch(|| {
+            let _ = parse::parse_text(h);
+        });
+    }
+}
+
+fn gen_history(rng: &mut Rng) -> Vec<String> {
+    let n = rng.usize(3);
+    (0..n)
+        .map(|_| match rng.below(5) {
+            0 => g11::token_soup(rng),
+            1 => g11::random_unicode(rng),
+            2 => {
+                let base = g11::wellformed(rng).text;
+                g11::mutate(rng, &base)
+            }
+            3 => format!("(display \"unterminated {}", rng.below(100)),
+            _ => format!("(list 1 2 #{} 3)", *rng.pick(&['q', '!', '@', ']'])),
+        })
+        .collect()
+}
+
 struct RunResult {
     evals: u64,
     cuts: u64,
@@ -345,9 +388,10 @@ struct RunResult {
     kind: &'static str,
 }
 
-fn rendered_to_json(r: &Rendered, chunk_seed: u64) -> Value {
+fn rendered_to_json(r: &Rendered, chunk_seed: u64, history: &[String]) -> Value {
     json!({
         "mode": "wellformed",
+        "history": history,
         "text": r.text,
         "spans": r.spans,
         "classes": r.classes,
@@ -370,6 +414,7 @@ fn one_run(seed: u64, run: u64) -> RunResult {
         sample: None,
         kind: "wellformed",
     };
+    let history = gen_history(&mut rng);
     if run % 4 != 3 {
         let r = g11::wellformed(&mut rng);
         let chunk_seed = rng.next_u64();
@@ -384,7 +429,11 @@ fn one_run(seed: u64, run: u64) -> RunResult {
                 res.keys.push(fnv64(format!("{}#{}", r.text, i).as_bytes()));
             }
         }
-        match check_wellformed(&r, chunk_seed) {
+        let outcome = in_fresh_thread(|| {
+            feed_history(&history);
+            check_wellformed(&r, chunk_seed)
+        });
+        match outcome {
             Ok(None) => {
                 if run < 3 {
                     res.sample = Some(json!({"text": r.text, "tokens": r.spans.len(), "data": r.data.iter().map(|d| d.show()).collect::<Vec<_>>()}));
@@ -396,7 +445,7 @@ fn one_run(seed: u64, run: u64) -> RunResult {
                     oracle: "generator's token/datum structure".into(),
                     signature: format!("C11 {}", class),
                     run,
-                    case: rendered_to_json(&r, chunk_seed),
+                    case: rendered_to_json(&r, chunk_seed, &history),
                     detail,
                 });
             }
@@ -406,7 +455,7 @@ fn one_run(seed: u64, run: u64) -> RunResult {
                     oracle: "totality".into(),
                     signature: "C11 wellformed panic".into(),
                     run,
-                    case: rendered_to_json(&r, chunk_seed),
+                    case: rendered_to_json(&r, chunk_seed, &history),
                     detail: format!("{} on {:?}", p, r.text),
                 });
             }
@@ -430,13 +479,17 @@ fn one_run(seed: u64, run: u64) -> RunResult {
                 base[..cut].to_string()
             }
         };
-        if let Some((class, detail)) = check_arbitrary(&text) {
+        let outcome = in_fresh_thread(|| {
+            feed_history(&history);
+            check_arbitrary(&text)
+        });
+        if let Some((class, detail)) = outcome {
             res.violation = Some(Violation {
                 property: "C11".into(),
                 oracle: "span and progress invariants".into(),
                 signature: format!("C11 {}", class),
                 run,
-                case: json!({"mode": "arbitrary", "text": text}),
+                case: json!({"mode": "arbitrary", "text": text, "history": history}),
                 detail,
             });
         }
@@ -455,7 +508,8 @@ pub fn run(tier: Tier, seed: u64, ev: &mut Evidence) -> Vec<Violation> {
                terminal (chunks at seeded token boundaries, validate, evaluate one datum, continue with the trimmed remaining text) must visit each \
                datum once in order within #data + #chunks iterations; the end of input is injected at EVERY token boundary: the complete data are \
                consumed and the rest is Incomplete (never an error), a complete datum is never Incomplete; one quarter: token soup, random Unicode, \
-               mutations and mid-token cuts for totality, span invariants and progress. distinct = (text, cut) hash; non-trivial = the cut falls at \
+               mutations and mid-token cuts for totality, span invariants and progress; every run is a terminal session of its own (fresh thread) \
+               that first receives 0-2 earlier inputs (token soup, unterminated strings, illegal # syntax ...) whose lexical errors must leave no trace. distinct = (text, cut) hash; non-trivial = the cut falls at \
                nesting depth >= 2"
         .into();
     let results = par_runs(n, |i| one_run(seed, i));
@@ -492,8 +546,13 @@ pub fn run(tier: Tier, seed: u64, ev: &mut Evidence) -> Vec<Violation> {
 
 pub fn replay(case: &Value) -> Result<Option<Violation>, String> {
     let text = case["text"].as_str().ok_or("text missing")?.to_string();
+    let history: Vec<String> = case["history"].as_array().map(|a| a.iter().map(|h| h.as_str().unwrap_or("").to_string()).collect()).unwrap_or_default();
     if case["mode"].as_str() == Some("arbitrary") {
-        return Ok(check_arbitrary(&text).map(|(class, detail)| Violation {
+        let outcome = in_fresh_thread(|| {
+            feed_history(&history);
+            check_arbitrary(&text)
+        });
+        return Ok(outcome.map(|(class, detail)| Violation {
             property: "C11".into(),
             oracle: "span and progress invariants".into(),
             signature: format!("C11 {}", class),
@@ -551,7 +610,11 @@ pub fn replay(case: &Value) -> Result<Option<Violation>, String> {
         data,
     };
     let chunk_seed = case["chunk_seed"].as_u64().unwrap_or(0);
-    match check_wellformed(&r, chunk_seed) {
+    let outcome = in_fresh_thread(|| {
+        feed_history(&history);
+        check_wellformed(&r, chunk_seed)
+    });
+    match outcome {
         Ok(None) => Ok(None),
         Ok(Some((class, detail))) => Ok(Some(Violation {
             property: "C11".into(),
